@@ -139,7 +139,7 @@ def run(thorough, seed):
 
     hows = ["flag", "env", "mixed"]
     vers_values = [2, 3, 4, 7] if not thorough else [1, 2, 3, 4, 5, 7, 10]
-    days_values = [2, 14] if not thorough else [1, 2, 3, 14, 30]
+    days_values = [2, 3, 14] if not thorough else [1, 2, 3, 14, 30]
     offsets_l, offsets_h = set(), set()
     n_cfg = 0
     try:
@@ -153,9 +153,9 @@ def run(thorough, seed):
                 listen.append((h, free_port("::1" if h == "::1" else "127.0.0.1")))
             allow_mode = vi % 3   # none / one / many
             me = str(uuid.UUID(int=rnd.getrandbits(128), version=4))
-            others = [str(uuid.UUID(int=rnd.getrandbits(128), version=4)) for _ in range(3)]
-            allow = None if allow_mode == 0 else ([me] if allow_mode == 1 else [others[0], me, others[1]])
-            outsider = others[2]
+            others = [str(uuid.UUID(int=rnd.getrandbits(128), version=4)) for _ in range(9)]
+            allow = None if allow_mode == 0 else ([me] if allow_mode == 1 else others[:4] + [me] + others[4:8])
+            outsider = others[8]
             D = days_values[vi % len(days_values)]
             ddir = os.path.join(base, "d%d" % vi)
             os.makedirs(ddir)
@@ -240,9 +240,12 @@ def run(thorough, seed):
                     viol("snapshot-versions=%d configured, but the first snapshot request appears at AddVersion #%s after the snapshot (expected #%d or #%d)" % (N, first["low"], N, N + 1), pr, trace)
                 else:
                     offsets_l.add(first["low"] - N)
-                lo_h, hi_h = N * 3 // 2, -(-N * 3 // 2)
-                if first["high"] is None or not (lo_h <= first["high"] <= hi_h + 1):
-                    viol("snapshot-versions=%d configured, but urgency=high first appears at AddVersion #%s after the snapshot (expected #%d..#%d)" % (N, first["high"], lo_h, hi_h + 1), pr, trace)
+                # high from floor(3N/2) (the integer reading of "one and a half times" used throughout, DESIGN.md 5.C12), counted
+                # the same way as the low threshold just observed
+                if first["low"] is not None and first["low"] - N in (0, 1):
+                    exp_h = N * 3 // 2 + (first["low"] - N)
+                    if first["high"] != exp_h:
+                        viol("snapshot-versions=%d configured (first snapshot request at AddVersion #%d), but urgency=high first appears at AddVersion #%s after the snapshot (expected #%d)" % (N, first["low"], first["high"], exp_h), pr, trace)
                 if any(u not in ("none", "low", "high") for u in seq) or seq != sorted(seq, key=["none", "low", "high"].index):
                     viol("urgency sequence is not monotone none->low->high: %s" % seq, pr, trace)
                 # (5) kill -9, restart on the same directory (other way of giving the configuration): same history
@@ -250,8 +253,20 @@ def run(thorough, seed):
                 # (6) snapshot-days target: fresh snapshot, age it in the database, restart
                 # thresholds as in C12 with the integer reading used throughout (DESIGN.md 5.C12): low from D days, high from floor(3D/2) days
                 urg_days = lambda d: "high" if d >= D * 3 // 2 else ("low" if d >= D else "none")
+                def restart(how2):
+                    last = None
+                    for attempt in range(3):
+                        try:
+                            return Proc(dict(cfg, versions=1000000), how2)
+                        except RuntimeError as e:
+                            last = str(e)
+                            time.sleep(0.3)
+                    viol("after kill -9 the server does not start again on the same data directory and addresses (3 attempts): " + (last or ""), None, trace)
+                    return None
                 for d_age, expect in [(d, urg_days(d)) for d in (D - 1, D, -(-D * 3 // 2) + 1)] if have_db else ():
-                    pr2 = Proc(dict(cfg, versions=1000000), hows[(vi + 1) % 3])
+                    pr2 = restart(hows[(vi + 1) % 3])
+                    if pr2 is None:
+                        break
                     try:
                         st, _, _ = req(addr, "POST", "/v1/client/add-snapshot/" + parent, me, b"snap2", SN)
                         requests[0] += 1
@@ -263,11 +278,15 @@ def run(thorough, seed):
                     con.commit()
                     changed = con.total_changes
                     con.close()
-                    pr2 = Proc(dict(cfg, versions=1000000), hows[(vi + 2) % 3])
+                    pr2 = restart(hows[(vi + 2) % 3])
+                    if pr2 is None:
+                        break
                     trace2 = trace + ["restart: " + pr2.cmdline, "snapshot aged to %d days" % d_age]
                     try:
                         cases += 1
                         if changed != 1:
+                            if violations:
+                                break   # the snapshot was never stored because of what has been reported already
                             raise Skip("could not age the snapshot row (schema differs from the pinned tree's)")
                         st, hd, _ = add_version(addr, me, parent, b"aged%d" % d_age)
                         requests[0] += 1
